@@ -554,7 +554,7 @@ def _wclass(chain, doc):
     if any(t["type"] == "replace_string" for t in flat) and (_has_number(doc) or added_number):
         return "replace_string:number-becomes-string"
     names = "+".join(sorted({t["type"] for t in flat}))
-    if any(t["type"] in ("replace_string", "map_string") for t in chain) and _backslash_adjacent(doc):
+    if any(t["type"] in ("replace_string", "map_string") for t in flat) and _backslash_adjacent(doc):
         return names + ":plain-backslash"
     return names
 
